@@ -606,6 +606,8 @@ fn solo_load(addr: usize, _w: u8, _o: O, real: u64) -> u64 {
                 // stable at a new even, non-zero value (third call: the writer, or its successor, is quiet)
                 4 => { let e = ((g0 / 2) * 2 + 2 * 20011) & 0xffff; if e == 0 { 2 } else { e } }
                 // alternating: odd (update in flight), then a new even value, then odd again, …
+                // the segment is wiped in place under the reader: after its first load the generation reads 0 for ever
+                5 => if k == 0 { g0 } else { 0 },
                 3 => if k == 0 { g0 } else if k % 2 == 1 { (g0 + 1) & 0xffff } else { (g0 + 2 * ((k / 2) % SOLO_PERIOD.load(O::Relaxed) + 1)) & 0xffff },
                 _ => (g0 + 2 * (k % SOLO_PERIOD.load(O::Relaxed))) & 0xffff,
             }
